@@ -273,3 +273,63 @@ def run_case(ctx, case):
     # hook: structural correspondence with the Lean model (cores of `a` are available here)
     if getattr(ctx, "use_model", False) and not getattr(ctx, "search_only", False):
         pass  # MODEL HOOK (main session): compare core.from_tn(a) with the model of anova_decomposition on t, marginals
+
+
+# =============================================================================== correspondence with the Lean model (main session)
+def _corr_cases(rng, tier):
+    from core import gen_tensor
+    n = {"quick": 120, "thorough": 1500, "search": 0}[tier]
+    out = []
+    for _ in range(n):
+        N = rng.choice([1, 2, 2, 3, 3, 4])
+        stream = "int" if rng.random() < 0.5 else "float"
+        shape = [rng.randint(2, 4) for _ in range(N)]
+        margs = None
+        if rng.random() < 0.6:
+            margs = [[float(rng.randint(1, 4)) if stream == "int" else rng.uniform(0.2, 2) for _ in range(s)] for s in shape]
+        out.append({"kind": "corr", "t": gen_tensor(rng, shape, stream=stream).to_json(), "margs": margs, "stream": stream})
+    return out
+
+
+_orig_cases = cases
+_orig_run_case = run_case
+
+
+def cases(rng, tier):  # noqa: F811
+    return _orig_cases(rng, tier) + _corr_cases(rng, tier)
+
+
+def run_case(ctx, case):  # noqa: F811
+    if case.get("kind") != "corr":
+        return _orig_run_case(ctx, case)
+    from core import PT, parse_tensor, cmp_struct, from_tn, q, safe, close
+    t = PT.from_json(case["t"])
+    margs = case["margs"]
+    ctx.case(("corr", "anova", t.sig(), margs is None), t.nontrivial(), {"op": "model correspondence: anova_decomposition / undo", "t": t.describe(), "marginals": margs})
+    ctx.count("corr:anova")
+    if not (getattr(ctx, "use_model", False) and not getattr(ctx, "search_only", False)):
+        return
+    tm = None if margs is None else [torch.tensor(m, dtype=torch.float64) for m in margs]
+    r = safe(lambda: tn.anova_decomposition(t.to_tn(), marginals=tm))
+    if r[0] == "err":
+        ctx.oracle("anova_decomposition raised %s: %s" % (r[1], r[2]), case); return
+    ws = margs if margs is not None else [[1.0] * s for s in t.shape]
+    line = "anova %d %s %s" % (t.N, " ".join("%d %s" % (len(w), " ".join(q(v) for v in w)) for w in ws), t.ser())
+    toks = ctx.drv().call(line)
+    if toks[0] != "ok":
+        ctx.corr("model anova failed: %s" % " ".join(toks[:4]), case); return
+    m = parse_tensor(toks, 1)[0]
+    d = cmp_struct(from_tn(r[1]), m, False, rtol=1e-9)
+    if d is not None:
+        ctx.corr("anova_decomposition: implementation cores/factors differ from the model: %s" % d, case)
+    r2 = safe(lambda: tn.undo_anova_decomposition(r[1]))
+    if r2[0] == "err":
+        ctx.oracle("undo_anova_decomposition raised %s: %s" % (r2[1], r2[2]), case); return
+    toks2 = ctx.drv().call("undo_anova " + m.ser())
+    m2 = parse_tensor(toks2, 1)[0]
+    d2 = cmp_struct(from_tn(r2[1]), m2, False, rtol=1e-9)
+    if d2 is not None:
+        ctx.corr("undo_anova_decomposition: implementation differs from the model: %s" % d2, case)
+    md = PT([np.asarray(c, dtype=np.float64) for c in m2.cores], [None if U is None else np.asarray(U, dtype=np.float64) for U in m2.Us]).dense()
+    if not close(md, t.dense(), 1e-9)[0]:
+        ctx.spec("model: undo(anova(t)) differs from t", case)
